@@ -48,6 +48,15 @@ CHECKS = {
              'specification of its own build (whose store models the representation), and the representation-independent observables are compared across rows.',
         note='Covering array, not all subsets; programs and inputs sampled.',
         technique='TLC trace validation per option row + cross-row comparison of observables', thorough=True),
+    'C19': dict(
+        category='model_checking', design_ref='6/C19',
+        text='NmfuFlags.tla transcribes the resolution algorithm (level, explicit overrides, implication fixpoint, exclusion pass) with its own metadata table. '
+             'TLC enumerates every on/off/absent assignment of the eleven related flags x every -O level (3^11 x 4 = 708588 cases; quick: a 1/16 stride picked by the seed) '
+             'and all 3^5 x 4 optimisation-flag cases, checks on each case: implied flags on, exclusive never both, explicit conflict is an error, explicit beats level, '
+             'levels cumulative, independence of the order of distinct flags; the real load_commandline_flags is run on the same command lines (canonical, reversed, shuffled; '
+             'mixed spellings) and must yield exactly the configuration or error the specification prescribes. Malformed/unknown options must be diagnosed.',
+        note='Exhaustive over the related flags in the thorough tier; argument order is covered by reversal, rotation, all permutations of up to four flags (in TLC) and shuffles (conformance).',
+        technique='TLA+ transcription of flag resolution, TLC exhaustive enumeration + bidirectional conformance', thorough=True),
 }
 
 NOT_YET = 'check not built yet in this session (specification work in progress); see DESIGN.md section 12'
